@@ -315,20 +315,27 @@ def action_coverage(out):
 # judging observation logs with a Trace_* module
 
 JUDGE_SPLIT = 60000
+JUDGE_SPLIT_BYTES = 48 * 1024 * 1024
+JUDGE_PART_BYTES = 40 * 1024 * 1024
 
 
 def judge(ctx, module, obs_path, n_records, env=None, timeout=1500, name=None, workers=None, xmx="6g"):
     """Validate an observation log with spec/<module>.tla (INSTANCE Stepper).
     Returns (fails, drifts, stats): fails = list of (index, [why..]).  Large logs are validated in
     parts of JUDGE_SPLIT records (bounded TLC heap and run time)."""
-    if n_records > JUDGE_SPLIT:
+    big = n_records > JUDGE_SPLIT or (n_records > 1 and os.path.getsize(obs_path) > JUDGE_SPLIT_BYTES)
+    if big:
+        # TLC turns a JSON log into value objects ~30x its size: keep every part below ~40 MB / 60 000 records
         fails, drifts = [], []
         tot = {"n": 0, "fail": 0, "skip": 0, "nt": 0, "drift": 0}
         part, k, off = ctx.path("judge-part.ndjson"), 0, 0
         with open(obs_path) as f:
             lines = f.readlines()
         while off < len(lines):
-            chunk = lines[off:off + JUDGE_SPLIT]
+            chunk, size = [], 0
+            while off + len(chunk) < len(lines) and len(chunk) < JUDGE_SPLIT and (not chunk or size + len(lines[off + len(chunk)]) <= JUDGE_PART_BYTES):
+                size += len(lines[off + len(chunk)])
+                chunk.append(lines[off + len(chunk)])
             with open(part, "w") as g:
                 g.writelines(chunk)
             k += 1
